@@ -1252,7 +1252,6 @@ func (c *Ctx) rulesR5selfret() {
 	}
 }
 
-
 // queueSitesIn: the instructions of f that put a mutation on the queue: the
 // direct queueMutation / PrependMut sites, or the call sites of unexported
 // helpers of the package (not started with go) that contain such a site
